@@ -231,11 +231,11 @@ where
 pub type Multipoint = GenericMultipoint<Point>;
 
 impl Multipoint {
-    pub(crate) fn size_of_record(num_points: i32) -> usize {
-        let mut size = 0usize;
-        size += 4 * size_of::<f64>(); // BBOX
-        size += size_of::<i32>(); // num points
-        size += size_of::<Point>() * num_points as usize;
+    pub(crate) fn size_of_record(num_points: i32) -> i64 {
+        let mut size = 0i64;
+        size += 4 * size_of::<f64>() as i64; // BBOX
+        size += size_of::<i32>() as i64; // num points
+        size += size_of::<Point>() as i64 * i64::from(num_points);
         size
     }
 }
@@ -258,7 +258,7 @@ impl ConcreteReadableShape for Multipoint {
         bbox_read_xy_from(&mut bbox, source)?;
 
         let num_points = source.read_i32::<LittleEndian>()?;
-        if record_size == Self::size_of_record(num_points) as i32 {
+        if i64::from(record_size) == Self::size_of_record(num_points) {
             let points = read_xy_in_vec_of::<Point, T>(source, num_points)?;
             Ok(Self { bbox, points })
         } else {
@@ -306,11 +306,11 @@ impl EsriShape for Multipoint {
 pub type MultipointM = GenericMultipoint<PointM>;
 
 impl MultipointM {
-    pub(crate) fn size_of_record(num_points: i32, is_m_used: bool) -> usize {
+    pub(crate) fn size_of_record(num_points: i32, is_m_used: bool) -> i64 {
         let mut size = Multipoint::size_of_record(num_points);
         if is_m_used {
-            size += 2 * size_of::<f64>(); // M Range
-            size += size_of::<f64>() * num_points as usize; // M
+            size += 2 * size_of::<f64>() as i64; // M Range
+            size += size_of::<f64>() as i64 * i64::from(num_points); // M
         }
         size
     }
@@ -335,8 +335,9 @@ impl ConcreteReadableShape for MultipointM {
 
         let num_points = source.read_i32::<LittleEndian>()?;
 
-        let size_with_m = Self::size_of_record(num_points, true) as i32;
-        let size_without_m = Self::size_of_record(num_points, false) as i32;
+        let record_size = i64::from(record_size);
+        let size_with_m = Self::size_of_record(num_points, true);
+        let size_without_m = Self::size_of_record(num_points, false);
 
         if (record_size != size_with_m) & (record_size != size_without_m) {
             Err(Error::InvalidShapeRecordSize)
@@ -403,14 +404,14 @@ impl fmt::Display for MultipointZ {
     }
 }
 impl MultipointZ {
-    pub(crate) fn size_of_record(num_points: i32, is_m_used: bool) -> usize {
+    pub(crate) fn size_of_record(num_points: i32, is_m_used: bool) -> i64 {
         let mut size = Multipoint::size_of_record(num_points);
-        size += 2 * size_of::<f64>(); // Z Range
-        size += size_of::<f64>() * num_points as usize; // Z
+        size += 2 * size_of::<f64>() as i64; // Z Range
+        size += size_of::<f64>() as i64 * i64::from(num_points); // Z
 
         if is_m_used {
-            size += 2 * size_of::<f64>(); // M Range
-            size += size_of::<f64>() * num_points as usize; // M
+            size += 2 * size_of::<f64>() as i64; // M Range
+            size += size_of::<f64>() as i64 * i64::from(num_points); // M
         }
 
         size
@@ -429,8 +430,9 @@ impl ConcreteReadableShape for MultipointZ {
         bbox_read_xy_from(&mut bbox, source)?;
         let num_points = source.read_i32::<LittleEndian>()?;
 
-        let size_with_m = Self::size_of_record(num_points, true) as i32;
-        let size_without_m = Self::size_of_record(num_points, false) as i32;
+        let record_size = i64::from(record_size);
+        let size_with_m = Self::size_of_record(num_points, true);
+        let size_without_m = Self::size_of_record(num_points, false);
 
         if (record_size != size_with_m) & (record_size != size_without_m) {
             Err(Error::InvalidShapeRecordSize)
